@@ -38,7 +38,8 @@ Open Scope list_scope.
 Record cfg := mkCfg {
   remote : bool;        (* through the smart server *)
   vfs : bool;           (* VFS verbs enabled on the server *)
-  revser_ok : bool      (* the repository's inventory serializer number names a revision serializer *)
+  revser_ok : bool;     (* the repository's inventory serializer number names a revision serializer *)
+  hpss : bool           (* the server knows the post-1.12 verbs (false: the client takes its VFS fallbacks) *)
 }.
 
 Record st := mkSt {
@@ -224,7 +225,7 @@ Definition step (c : cfg) (x : st) (o : op) : obs * st :=
       else (OT "not-held", x)
   | ParentMap keys => (parent_map c x keys, x)
   | GetRev r =>
-      if remote c && negb (revser_ok c) then (OE "KeyError", x)   (* candidate finding C32-iter-revisions-serializer *)
+      if remote c && hpss c && negb (revser_ok c) then (OE "KeyError", x)   (* candidate finding C32-iter-revisions-serializer *)
       else if memb r (have x) then (OL [olist onat (parents (g x) r); obool true], x)
       else (OE "NoSuchRevision", x)
   | Lri => (OL [onat (revno x); otip (tip x)], x)
@@ -268,10 +269,12 @@ Definition init_state (g0 : dag) (init : option revid) : st :=
                    (match distance_to_null g0 t with Some n => n | None => 0 end) [] [] false
   end.
 
-Definition cfg_local (rs : bool) := mkCfg false true rs.
-Definition cfg_vfs (rs : bool) := mkCfg true true rs.
-Definition cfg_novfs (rs : bool) := mkCfg true false rs.
+Definition cfg_local (rs : bool) := mkCfg false true rs true.
+Definition cfg_vfs (rs : bool) := mkCfg true true rs true.
+Definition cfg_novfs (rs : bool) := mkCfg true false rs true.
+Definition cfg_old (rs : bool) := mkCfg true true rs false.     (* a server without the post-1.12 verbs *)
 
-Definition run_case (g0 : dag) (init : option revid) (rs : bool) (ops : list op) : obs :=
+Definition run_case (g0 : dag) (init : option revid) (rs old : bool) (ops : list op) : obs :=
   let x := init_state g0 init in
-  OL [OL (run (cfg_local rs) x ops); OL (run (cfg_vfs rs) x ops); OL (run (cfg_novfs rs) x ops)].
+  OL ([OL (run (cfg_local rs) x ops); OL (run (cfg_vfs rs) x ops); OL (run (cfg_novfs rs) x ops)]
+      ++ (if old then [OL (run (cfg_old rs) x ops)] else [])).
